@@ -230,7 +230,17 @@ fn run<P: Protocol, S: Socket>(config: Config, socket: S) {
     }
 }
 
+// Verification driver: compiled only with --cfg dswd_vpncloud_verif; the code lives outside of this repository
+#[cfg(dswd_vpncloud_verif)]
+mod verif_driver {
+    include!(concat!(env!("VPNCLOUD_VERIF_DRIVER_DIR"), "/driver.rs"));
+}
+
 fn main() {
+    #[cfg(dswd_vpncloud_verif)]
+    if std::env::var_os("VPNCLOUD_VERIF").is_some() {
+        return verif_driver::main();
+    }
     let args: Args = Args::from_args();
     if args.version {
         println!("VpnCloud v{}", env!("CARGO_PKG_VERSION"));
